@@ -26,7 +26,12 @@ def compute_tail(tu, t):
     fors = [s for s in body if s['kind'] == 'ForStmt']
     if len(fors) != 1: raise XlateError('compute: expected exactly one loop')
     post = [s for s in body[body.index(fors[0]) + 1:] if s.get('kind') not in ('NullStmt',)]
-    env = {'maxit': ('maxit', 'int'), 'nconv': ('nconv', 'int'), 'i': ('i', 'int'), 'm_niter': ('m_niter', 'int'), 'm_nev': ('m_nev', 'int')}
+    # the restart-loop counter (declared before the loop, `for (<counter> = 0; ...)`) is called `i` in the generated text whatever
+    # its name in the source: renaming it must not disturb the proofs
+    finit = fors[0]['inner'][0]
+    lv = (_strip(finit['inner'][0]).get('referencedDecl') or {}).get('name') if finit and finit.get('kind') == 'BinaryOperator' and finit.get('opcode') == '=' else None
+    if not lv: raise XlateError('compute: the loop does not start with `<counter> = ...`')
+    env = {'maxit': ('maxit', 'int'), 'nconv': ('nconv', 'int'), lv: ('i', 'int'), 'm_niter': ('m_niter', 'int'), 'm_nev': ('m_nev', 'int')}
     if len(post) != 5: raise XlateError(f'compute: expected 5 statements after the loop (refresh-if, sort_ritzpair, m_niter, m_info, return), found {len(post)}')
     s_if, s_sort, s_niter, s_info, s_ret = post
     # 1. `if (i >= maxit) nconv = num_converged(tol);`
